@@ -124,6 +124,13 @@ func c13Scenarios(tier string) []*mcrt.Scenario {
 							if !obs.inRun || silence <= time.Duration(c.timeout)*time.Millisecond {
 								return &mcrt.Failure{Kind: "gave-up-within-tolerance", Detail: fmt.Sprintf("silence %v, tolerance %dms; faults=%s", silence, c.timeout, faults)}
 							}
+							// ... and must not wait much longer than the tolerance either: the
+							// retry loop checks once per timeout period, so it stops within two
+							// periods plus the first wait (plus whatever other timers made it oversleep)
+							limit := time.Duration(2*c.timeout+c.wait)*time.Millisecond + time.Duration(obs.log.pauses)*250*time.Millisecond
+							if silence > limit {
+								return &mcrt.Failure{Kind: "kept-retrying-far-beyond-the-tolerance", Detail: fmt.Sprintf("stopped after %v of silence, tolerance %dms (wait %dms); faults=%s", silence, c.timeout, c.wait, faults)}
+							}
 						}
 						cls := "stopped-on-error"
 						if transient {
